@@ -59,10 +59,11 @@ Definition zmem (c : Z) (l : list Z) : bool := existsb (Z.eqb c) l.
 (* ! # % & * + - . / ; < = > ? @ ^ ` | ~ *)
 Definition is_operator_char (c : Z) : bool :=
   zmem c [33; 35; 37; 38; 42; 43; 45; 46; 47; 59; 60; 61; 62; 63; 64; 94; 96; 124; 126].
-(* -1 { } [ ] ( ) , ` ' space \t \n \r *)
+(* -1 { } [ ] ( ) , ` ' space \t \n \r \v \f *)
 Definition is_stop_char (c : Z) : bool :=
-  zmem c [-1; 123; 125; 91; 93; 40; 41; 44; 34; 39; 32; 9; 10; 13].
-Definition is_whitespace (c : Z) : bool := zmem c [32; 9; 10; 13].
+  zmem c [-1; 123; 125; 91; 93; 40; 41; 44; 34; 39; 32; 9; 10; 13; 11; 12].
+(* space \t \n \r \v \f (also the case list of skipWhitespaceWith) *)
+Definition is_whitespace (c : Z) : bool := zmem c [32; 9; 10; 13; 11; 12].
 (* tokenizer.go, end of file *)
 Definition is_string_whitespace (c : Z) : bool := (c =? 9) || (c =? 11) || (c =? 12).
 Definition is_new_line_char (c : Z) : bool := (c =? 10) || (c =? 13).
@@ -238,7 +239,9 @@ Definition run_handler (h : handler) : M bool :=
   | HSkipComments =>
     tdo c <- t_peek;
     if c =? c_slash then tdo _ <- with_fuel skip_single_line_comment; ret true
-    else if c =? c_star then tdo _ <- with_fuel (fun f => skip_block_comment f false); ret true
+    else if c =? c_star then
+      tdo _ <- t_read;                 (* the '*' of the opener must not double as the '*' of a closer *)
+      tdo _ <- with_fuel (fun f => skip_block_comment f false); ret true
     else ret false
   end.
 (* skipWhitespaceWith: the first non-whitespace character and whether anything was skipped *)
@@ -414,10 +417,10 @@ Definition read_timestamp_finish (c : Z) (w : list N) : M (list N) :=
   tdo _ <- t_unread c; ret (rev w).
 Definition read_timestamp : M (list N) :=
   tdo '(c, w) <- read_timestamp_digits 4 [];
-  if c =? c_T then ret (rev (84%N :: w)) else                                   (* yyyyT *)
+  if c =? c_T then tdo c2 <- t_read; read_timestamp_finish c2 (84%N :: w) else   (* yyyyT *)
   if negb (c =? c_minus) then fail else
   tdo '(c, w) <- read_timestamp_digits 2 (45%N :: w);
-  if c =? c_T then ret (rev (84%N :: w)) else                                   (* yyyy-mmT *)
+  if c =? c_T then tdo c2 <- t_read; read_timestamp_finish c2 (84%N :: w) else   (* yyyy-mmT *)
   if negb (c =? c_minus) then fail else
   tdo '(c, w) <- read_timestamp_digits 2 (45%N :: w);
   if negb (c =? c_T) then read_timestamp_finish c w else                         (* yyyy-mm-dd *)
@@ -596,7 +599,7 @@ Definition t_next_with : M unit :=
     tdo c2 <- t_peek;
     if is_operator_char c2 then tdo _ <- t_unread c; t_ok tokenSymbolOperator true
     else
-      tdo _ <- (if (c2 =? c_sp) || is_identifier_part c2 then t_unread c else ret tt);
+      tdo _ <- t_unread c;             (* the '.' is read back by readOperator, whatever follows it *)
       t_ok tokenDot false
   else if c =? c_quote then
     tdo ok <- t_is_triple_quote;
